@@ -14,7 +14,10 @@ from zmon import util
 
 CONFORM = ['absent', 'none', 'value', 'value-static', 'value-instfunc', 'value-callableobj', 'value-partial',
            'none-static', 'raise-ValueError', 'raise-TypeError', 'raise-AttributeError',
-           'raise-KeyError', 'get-AttributeError', 'get-RuntimeError']
+           'raise-KeyError', 'get-AttributeError', 'get-RuntimeError',
+           # the body of a __conform__ that is not a bound method raises: must propagate all the same
+           'raise-TypeError-static', 'raise-TypeError-instfunc', 'raise-TypeError-callableobj',
+           'raise-AttributeError-static', 'raise-AttributeError-instfunc', 'raise-AttributeError-callableobj']
 PROVIDED = ['no', 'class', 'direct']
 ALT = ['absent', 'given', 'none']
 CUSTOM = ['none'] + ['%s:%s' % (s, b) for s in ('own', 'inherited', 'inherited2', 'inherited-deep')
@@ -78,15 +81,18 @@ def build_iface(custom, log, state):
 def build_obj(conform, provided, iface, log, state):
     ns = {}
     inst_attrs = {}
-    if conform in ('value-static', 'none-static', 'value-instfunc', 'value-callableobj', 'value-partial'):
+    if conform in ('value-static', 'none-static', 'value-instfunc', 'value-callableobj', 'value-partial') or \
+            conform.count('-') == 2:
         # a __conform__ that is a perfectly good callable but not a bound method
         def conform_fn(proto):
             log.append('conform')
             state['conform_arg_ok'] = proto is iface
+            if conform.startswith('raise-'):
+                raise state['conform_exc']
             return None if conform.startswith('none') else state['conform_value']
         if conform.endswith('-static'):
             ns['__conform__'] = staticmethod(conform_fn)
-        elif conform == 'value-instfunc':
+        elif conform.endswith('-instfunc'):
             inst_attrs['__conform__'] = conform_fn
         elif conform == 'value-partial':
             import functools
@@ -192,7 +198,7 @@ def run_case(ctx, rng, job):
                      'hook_values': [object() for _ in hooks], 'hook_excs': [Marker('hook%d' % n) for n in range(len(hooks))],
                      'adapt_exc': Marker('adapt')}
             if conform.startswith(('raise-', 'get-')):
-                state['conform_exc'] = EXC[conform.split('-', 1)[1]]('from conform')
+                state['conform_exc'] = EXC[conform.split('-')[1]]('from conform')
             iface = build_iface(custom, log, state)
             obj = build_obj(conform, provided, iface, log, state)
             hs = []
@@ -250,6 +256,7 @@ def run_case(ctx, rng, job):
         zi.adapter_hooks[:] = saved
     if ctx.case == 0:
         registry_hook(ctx, rng)
+        class_objects(ctx)
 
 
 def registry_hook(ctx, rng):
@@ -295,5 +302,63 @@ def registry_hook(ctx, rng):
                         ctx.violation('registry-hook-no-typeerror', {}, abort=False)
                     except TypeError:
                         pass
+    finally:
+        zi.adapter_hooks[:] = saved
+
+
+def class_objects(ctx):
+    """Adapting a class whose *instances* have __conform__: the unbound method cannot be called with the
+    interface alone; the source documents that this counts as "no __conform__" (the one accommodation), while a
+    TypeError from the body of a callable __conform__ (a classmethod here) still propagates."""
+    saved = list(zi.adapter_hooks)
+    try:
+        for kind in ('unbound', 'classmethod-value', 'classmethod-raise-TypeError'):
+            for provided in ('no', 'direct'):
+                for hooks in hook_seqs(2):
+                    for alt in ALT:
+                        log = []
+                        state = {'conform_value': object(), 'alt': object(), 'conform_exc': TypeError('from conform'),
+                                 'hook_values': [object() for _ in hooks], 'hook_excs': [Marker('hook%d' % n) for n in range(len(hooks))]}
+                        iface = InterfaceClass('IT', (Interface,), {}, __module__=util.fresh_module())
+                        if kind == 'unbound':
+                            def __conform__(self, proto):
+                                log.append('conform')
+                                return state['conform_value']
+                            ref_conform = 'absent'
+                        else:
+                            def conform_cm(cls_, proto):
+                                log.append('conform')
+                                if kind.endswith('TypeError'):
+                                    raise state['conform_exc']
+                                return state['conform_value']
+                            __conform__ = classmethod(conform_cm)
+                            ref_conform = 'raise-TypeError' if kind.endswith('TypeError') else 'value'
+                        cls = type('Obj', (object,), {'__conform__': __conform__})
+                        if provided == 'direct':
+                            directlyProvides(cls, iface)
+                        hs = []
+                        for n, h in enumerate(hooks):
+                            def hook(i, o, n=n, h=h):
+                                log.append('hook%d' % n)
+                                if h == 'V':
+                                    return state['hook_values'][n]
+                                if h == 'R':
+                                    raise state['hook_excs'][n]
+                                return None
+                            hs.append(hook)
+                        zi.adapter_hooks[:] = hs
+                        elog, eout = reference(ref_conform, provided, hooks, alt, 'none', cls, iface, state)
+                        if alt == 'absent':
+                            got = observe(lambda: iface(cls))
+                        elif alt == 'given':
+                            got = observe(lambda: iface(cls, state['alt']))
+                        else:
+                            got = observe(lambda: iface(cls, None))
+                        ctx.ev()
+                        ctx.count('class_object_cases')
+                        if not (matches(eout, got, cls, iface) and log == elog):
+                            ctx.violation('adaptation-order-class-object',
+                                          {'case': [kind, provided, ''.join(hooks), alt], 'expected_log': elog, 'log': list(log),
+                                           'expected': eout[0], 'got': [got[0], repr(got[1])[:120]]}, abort=False)
     finally:
         zi.adapter_hooks[:] = saved
